@@ -11,17 +11,21 @@ use lc3_ensemble::sim::{InternalRegister, MemAccessCtx, SimErr, SimFlags, Simula
 use std::sync::atomic::Ordering;
 use std::sync::{Arc, Mutex, OnceLock};
 
-const SRC: [&str; 3] = [
+const SRC: [&str; 4] = [
     ".orig x3000\nLD R6, SP\nAND R0,R0,#0\nLOOP JSR A\nBPHERE ADD R0,R0,#1\nADD R2,R0,#-3\nBRn LOOP\nLEA R0, S\nPUTS\nHALT\nA ADD R6,R6,#-1\nSTR R7,R6,#0\nJSR B\nLDR R7,R6,#0\nADD R6,R6,#1\nRET\nB ADD R1,R1,#1\nST R1, M\nRET\nSP .fill xFD00\nM .fill 0\nS .stringz \"k\"\n.end",
     ".orig x3000\nAND R0,R0,#0\nAND R1,R1,#0\nLOOP ADD R1,R1,#2\nBPHERE ST R1, M\nADD R0,R0,#1\nADD R2,R0,#-4\nBRn LOOP\nHALT\nM .fill 0\n.end",
     ".orig x3000\nADD R0,R0,#1\nBPHERE ADD R0,R0,#1\nST R0, M\nADD R0,R0,#1\nHALT\nM .fill 0\n.end",
+    // scale: 131072 calls that never return (frame depth past 2^16), then a call that does
+    ".orig x3000\nAND R1,R1,#0\nLOOP JSR L1\nL1 JSR L2\nL2 ADD R1,R1,#-1\nBRnp LOOP\nBPHERE JSR SUB\nADD R2,R2,#1\nHALT\nSUB ADD R2,R2,#3\nST R2, M\nRET\nM .fill 0\n.end",
 ];
+/// histories run on the deep-recursion program (index 4), outside the BFS: breakpoint at the call, run there (262144 steps), then step over / out / in
+const DEEP: [&[u16]; 6] = [&[9, 7, 1], &[9, 7, 2], &[9, 7, 0, 2], &[9, 7, 1, 1, 1], &[9, 7, 0, 0, 1, 2], &[9, 7, 10, 5, 1]];
 struct Prog { obj: ObjectFile, bp: u16, m: u16, real: bool }
 fn progs() -> &'static Vec<Prog> {
     static P: OnceLock<Vec<Prog>> = OnceLock::new();
     P.get_or_init(|| {
         let mk = |i: usize, real: bool| { let o = assemble_debug(parse_ast(SRC[i]).unwrap(), SRC[i]).unwrap(); let s = o.symbol_table().unwrap(); Prog { bp: s.lookup_label("BPHERE").unwrap(), m: s.lookup_label("M").unwrap(), obj: o, real } };
-        vec![mk(0, false), mk(1, false), mk(0, true), mk(2, false)]
+        vec![mk(0, false), mk(1, false), mk(0, true), mk(2, false), mk(3, false)]
     })
 }
 
@@ -34,7 +38,7 @@ const OPS: [Op; 23] = [Op::StepIn, Op::StepOver, Op::StepOut, Op::RunLimit(0), O
 enum Pause { Halt, McrOff, Breakpoint, Tripwire, Unsuccessful }
 
 struct Side { sim: Simulator, dev: Arc<Mutex<IntState>>, disp: BufferedDisplay }
-struct World { a: Side, twin: Side, pause: Pause, bps: [bool; 3], prog: usize }
+struct World { a: Side, twin: Side, pause: Pause, bps: [bool; 3], prog: usize, /** call depth of the twin, counted by the harness from the instructions it single-steps (not read from the simulator) */ depth: u64 }
 const SSP_PORT: u16 = 0xFE30;
 
 fn side(p: &Prog) -> Side {
@@ -49,7 +53,7 @@ fn side(p: &Prog) -> Side {
     sim.device_handler.add_device(IntSource { vect: 0x90, prio: 1, state: st.clone() }, &[]).ok().unwrap();
     Side { sim, dev: st, disp }
 }
-fn fresh(prog: usize) -> World { let p = &progs()[prog]; World { a: side(p), twin: side(p), pause: Pause::Unsuccessful, bps: [false; 3], prog } }
+fn fresh(prog: usize) -> World { let p = &progs()[prog]; World { a: side(p), twin: side(p), pause: Pause::Unsuccessful, bps: [false; 3], prog, depth: 0 } }
 
 fn bp_match(w: &World, s: &Simulator) -> bool {
     let p = &progs()[w.prog];
@@ -57,19 +61,30 @@ fn bp_match(w: &World, s: &Simulator) -> bool {
 }
 fn errname(e: &SimErr) -> String { let s = format!("{e:?}"); s.split('(').next().unwrap_or("").to_string() }
 
+/// One `step_in` of the twin with the harness's own call-depth bookkeeping: +1 for JSR/JSRR, a TRAP that enters the OS and a taken interrupt,
+/// -1 (not below 0) for RET and RTI.
+fn twin_step(w: &mut World) -> Result<(), SimErr> {
+    let s = &mut w.twin.sim;
+    let (pc0, n0) = (s.pc, s.instructions_run);
+    let word = if pc0 < 0xFE00 { s.mem[pc0].get() } else { 0 };
+    s.step_in()?;
+    if s.instructions_run == n0 { if s.pc == 0x1F00 && pc0 != 0x1F00 { w.depth += 1; } return Ok(()); } // interrupt entry (or a parked virtual HALT)
+    match word >> 12 { 0x4 | 0xF => w.depth += 1, 0x8 => w.depth = w.depth.saturating_sub(1), 0xC if word == 0xC1C0 => w.depth = w.depth.saturating_sub(1), _ => {} }
+    Ok(())
+}
 /// RefRun: the documented stop rules, executed with `step_in` only.
-fn ref_run(w: &mut World, mut trip: impl FnMut(&Simulator) -> bool) -> Result<(), String> {
+fn ref_run(w: &mut World, mut trip: impl FnMut(&Simulator, u64) -> bool) -> Result<(), String> {
     let real = progs()[w.prog].real;
     w.twin.sim.mcr().store(true, Ordering::Relaxed);
     w.pause = Pause::Unsuccessful;
     let mut result = Ok(());
     for guard in 0.. {
-        if guard > 20_000 { return Err("machinery: reference run did not terminate".into()); }
+        if guard > 2_000_000 { return Err("machinery: reference run did not terminate".into()); }
         if !w.twin.sim.mcr().load(Ordering::Relaxed) { w.pause = Pause::McrOff; break; }
-        if !trip(&w.twin.sim) { w.pause = Pause::Tripwire; break; }
+        if !trip(&w.twin.sim, w.depth) { w.pause = Pause::Tripwire; break; }
         let (pc0, n0) = (w.twin.sim.pc, w.twin.sim.instructions_run);
         let at_halt = !real && w.twin.sim.mem[pc0].get() == 0xF025;
-        if let Err(e) = w.twin.sim.step_in() { result = Err(errname(&e)); break; }
+        if let Err(e) = twin_step(w) { result = Err(errname(&e)); break; }
         if at_halt && w.twin.sim.pc == pc0 && w.twin.sim.instructions_run == n0 { w.pause = Pause::Halt; break; }
         if bp_match(w, &w.twin.sim) { w.pause = Pause::Breakpoint; break; }
     }
@@ -82,16 +97,16 @@ fn apply(w: &mut World, op: Op) -> Result<(), (String, String)> {
     let what = format!("{op:?}");
     let r0 = reg(0);
     let (got, exp): (Result<(), String>, Result<(), String>) = match op {
-        Op::StepIn => (w.a.sim.step_in().map_err(|e| errname(&e)), w.twin.sim.step_in().map_err(|e| errname(&e))),
-        Op::RunLimit(n) => { let i = w.twin.sim.instructions_run; (w.a.sim.run_with_limit(n).map_err(|e| errname(&e)), ref_run(w, |s| s.instructions_run.wrapping_sub(i) < n)) }
-        Op::Run => (w.a.sim.run().map_err(|e| errname(&e)), ref_run(w, |_| true)),
-        Op::RunWhileR0Ne2 => (w.a.sim.run_while(|s| s.reg_file[r0].get() != 2).map_err(|e| errname(&e)), ref_run(w, |s| s.reg_file[r0].get() != 2)),
-        Op::StepOver => { let d = w.twin.sim.frame_stack.len(); let mut first = true; (w.a.sim.step_over().map_err(|e| errname(&e)), ref_run(w, |s| { let f = first; first = false; f || d < s.frame_stack.len() })) }
+        Op::StepIn => (w.a.sim.step_in().map_err(|e| errname(&e)), twin_step(w).map_err(|e| errname(&e))),
+        Op::RunLimit(n) => { let i = w.twin.sim.instructions_run; (w.a.sim.run_with_limit(n).map_err(|e| errname(&e)), ref_run(w, |s, _| s.instructions_run.wrapping_sub(i) < n)) }
+        Op::Run => (w.a.sim.run().map_err(|e| errname(&e)), ref_run(w, |_, _| true)),
+        Op::RunWhileR0Ne2 => (w.a.sim.run_while(|s| s.reg_file[r0].get() != 2).map_err(|e| errname(&e)), ref_run(w, |s, _| s.reg_file[r0].get() != 2)),
+        Op::StepOver => { let d = w.depth; let mut first = true; (w.a.sim.step_over().map_err(|e| errname(&e)), ref_run(w, |_, depth| { let f = first; first = false; f || d < depth })) }
         Op::StepOut => {
-            let d = w.twin.sim.frame_stack.len();
+            let d = w.depth;
             let g = w.a.sim.step_out().map_err(|e| errname(&e));
             // documented: runs until the frame depth drops below the starting depth; at top level there is nothing to step out of (no-op)
-            let e = if d == 0 { Ok(()) } else { let mut first = true; ref_run(w, |s| { let f = first; first = false; f || d <= s.frame_stack.len() }) };
+            let e = if d == 0 { Ok(()) } else { let mut first = true; ref_run(w, |_, depth| { let f = first; first = false; f || d <= depth }) };
             (g, e)
         }
         Op::BpPc(on) => { let b = Breakpoint::PC(p.bp); if on { w.a.sim.breakpoints.insert(b); } else { w.a.sim.breakpoints.remove(&b); } w.bps[0] = on; (Ok(()), Ok(())) }
@@ -149,14 +164,21 @@ fn visit(prog: usize, h: &[u16]) -> Visit {
 
 pub fn run(ctx: &Ctx) -> Report {
     let mut rep = Report::new("explicit-state BFS, for each of 4 programs (nested calls 2 deep + loop + PUTS trap + HALT; a store loop for memory breakpoints; the first program under real traps, halting through the OS's MCR write; a straight line), over histories of 21 operations: step_in, step_over, step_out, run_with_limit(0,1,2,5,u64::MAX), the host setting instructions_run to u64::MAX-1 or 0 (documented as resettable), run, run_while(R0 != 2), insert/remove a PC, a register (R0 == 2) and a memory (M != 0) breakpoint, arm an asynchronous MCR clear 0/1/3 polls ahead. After every operation the real simulator is compared with a twin that is driven ONLY by step_in under the documented stop rules (halt, error, breakpoint after an executed step, step limit, tripwire, frame depth, MCR cleared): result, registers, PC, PSR, saved SP, memory, frame depth, instruction count, output, hit_halt/hit_breakpoint, MCR. Any split of a run into segments therefore equals the unbroken run. non-trivial = states at depth >= 1");
-    let depth = ctx.pick(5usize, 10usize);
+    let depth = ctx.pick(5usize, 8usize);
     let mut total_states = 0u64; let mut total_tr = 0u64; let mut frontier_total = 0u64;
-    for prog in 0..progs().len() {
+    for prog in 0..4 {
         let (states, transitions, frontier, per_depth, capped) = bfs_hist(ctx, &mut rep.acc, OPS.len(), depth, &|h| format!("{prog}:{}", h.iter().map(|x| x.to_string()).collect::<Vec<_>>().join(",")), |h| visit(prog, h));
         total_states += states; total_tr += transitions; frontier_total += frontier;
         for (d, n) in per_depth.iter().enumerate() { rep.acc.outcomes.insert(mix(prog as u64 * 16 + d as u64, *n)); rep.acc.count(&format!("program{prog}_new_states_depth_{d}"), *n); }
         if capped { rep.exhaustive = false; }
     }
+    let r = sweep(ctx, DEEP.len() as u64, 1, |i, acc| {
+        acc.evals += 1; acc.count("deep_recursion_histories", 1);
+        let v = visit(4, DEEP[i as usize]);
+        acc.transitions += 600_000;
+        if let Some((sig, d)) = v.violation { acc.violation(sig, format!("4:{}", DEEP[i as usize].iter().map(|x| x.to_string()).collect::<Vec<_>>().join(",")), d); }
+    });
+    rep.absorb(r);
     rep.acc.states = total_states; rep.acc.transitions = total_tr; rep.acc.nontrivial = total_states - 4;
     rep.bound("depth", Json::i(depth as u64)); rep.bound("alphabet", Json::i(OPS.len() as u64)); rep.bound("frontier_at_bound", Json::i(frontier_total));
     rep.require(total_states > 1000, "the run/step state space was explored");
